@@ -180,6 +180,47 @@ int main()
         double q[4]; for (int i = 0; i < 4; i++) q[i] = nf();
         colvarvalue x(cvm::quaternion(q[0], q[1], q[2], q[3])); x.apply_constraints(); o << vs_hex(x) << "\n";
       }
+    } else if (cmd == "AR") {
+      // colvarvalue arithmetic: AR type a x1 x2 -> x1 + x2, x1 - x2, a * x1, x1 / a
+      std::string t = a[p++];
+      double f = nf();
+      colvarvalue x1, x2;
+      if (t == "SC") { x1 = colvarvalue(nf()); x2 = colvarvalue(nf()); }
+      else if (t == "UV" || t == "V3") {
+        colvarvalue::Type ty = (t == "UV") ? colvarvalue::type_unit3vector : colvarvalue::type_3vector;
+        cvm::rvector u = v3(), v = v3(); x1 = colvarvalue(u, ty); x2 = colvarvalue(v, ty);
+      } else if (t == "Q") {
+        double q[8]; for (int i = 0; i < 8; i++) q[i] = nf();
+        x1 = colvarvalue(cvm::quaternion(q[0], q[1], q[2], q[3])); x2 = colvarvalue(cvm::quaternion(q[4], q[5], q[6], q[7]));
+      } else {
+        int n = ni();
+        cvm::vector1d<cvm::real> v1(n), v2(n);
+        for (int i = 0; i < n; i++) v1[i] = nf();
+        for (int i = 0; i < n; i++) v2[i] = nf();
+        x1 = colvarvalue(v1, colvarvalue::type_vector); x2 = colvarvalue(v2, colvarvalue::type_vector);
+      }
+      o << vs_hex(x1 + x2) << " " << vs_hex(x1 - x2) << " " << vs_hex(f * x1) << " " << vs_hex(x1 / f) << "\n";
+    } else if (cmd == "ERR") {
+      // operations that are documented errors: distance / gradient between "derivative" types, interpolation outside [0,1]
+      std::string t = a[p++];
+      cvm::clear_error();
+      if (t == "UVD") {
+        colvarvalue x1(cvm::rvector(1, 0, 0), colvarvalue::type_unit3vectorderiv), x2(cvm::rvector(0, 1, 0), colvarvalue::type_unit3vectorderiv);
+        x1.dist2(x2); int e1 = cvm::get_error() ? 1 : 0; cvm::clear_error();
+        x1.dist2_grad(x2); int e2 = cvm::get_error() ? 1 : 0;
+        o << H(e1) << " " << H(e2) << "\n";
+      } else if (t == "QD") {
+        colvarvalue x1(cvm::quaternion(1, 0, 0, 0), colvarvalue::type_quaternionderiv), x2(cvm::quaternion(0, 1, 0, 0), colvarvalue::type_quaternionderiv);
+        x1.dist2(x2); int e1 = cvm::get_error() ? 1 : 0; cvm::clear_error();
+        x1.dist2_grad(x2); int e2 = cvm::get_error() ? 1 : 0;
+        o << H(e1) << " " << H(e2) << "\n";
+      } else {
+        double l = nf();
+        colvarvalue x1(1.0), x2(2.0);
+        colvarvalue::interpolate(x1, x2, l); int e1 = cvm::get_error() ? 1 : 0;
+        o << H(e1) << " " << H(e1) << "\n";
+      }
+      cvm::clear_error();
     } else if (cmd == "INN") {
       // inner product (operator *) and norm2 of colvarvalues
       std::string t = a[p++];
@@ -302,7 +343,7 @@ int main()
           hb_cache[cv] = hb;
         }
         if (!hb) { o << "nobias\n"; continue; }
-        hb->force_k = k; cv->width = w; cv->x = x; hb->colvar_centers[0] = c;
+        hb->force_k = k; cv->width = w; cv->x = x; cv->x_reported = x; hb->colvar_centers[0] = c;
         o << H(hb->restraint_potential(0)) << " " << vs_hex(hb->restraint_force(0)) << "\n";
         cv->width = 1.0;
       } else if (cmd == "FV") {
@@ -377,7 +418,7 @@ int main()
       if (!hw) { o << "nobias\n"; continue; }
       hw->force_k = k; hw->lower_wall_k = lk; hw->upper_wall_k = uk;
       hw->lower_walls[0] = colvarvalue(lo); hw->upper_walls[0] = colvarvalue(up);
-      cv->width = w; cv->x = colvarvalue(xv);
+      cv->width = w; cv->x = colvarvalue(xv); cv->x_reported = colvarvalue(xv);
       o << H(hw->colvar_distance(0)) << " " << H(hw->restraint_potential(0)) << " " << vs_hex(hw->restraint_force(0)) << "\n";
       cv->width = 1.0;
     } else if (cmd == "MR") {
@@ -446,6 +487,14 @@ int main()
           std::vector<std::string> confs(1, std::string(conf));
           cvm::clear_error();
           if (cv->update_cvc_config(confs) != COLVARS_OK) out += " moderr";
+          cvm::clear_error();
+        } else if (op == "S") {
+          // run-time change through the engine-side API colvar::set_cvc_param -> cvc::set_param (it changes the parameter and
+          // then reports "cannot be modified" from colvarparams::set_param; the error is cleared here)
+          double P = nf(), c = nf();
+          cvm::clear_error();
+          cv->set_cvc_param("period", reinterpret_cast<void const *>(&P));
+          cv->set_cvc_param("wrapAround", reinterpret_cast<void const *>(&c));
           cvm::clear_error();
         } else if (op == "W") {
           colvarvalue x(nf()); cv->wrap(x); out += " " + vs_hex(x);
